@@ -407,6 +407,19 @@ class C07(PropCheck):
                     self._probs.append(f"schedule {r['schedule']}: the handler blocks {r.get('blocks')} are not those of the position the "
                                        f"snapshot was taken at ({r.get('expected_blocks')})")
                 obs, model = self.to_model(r)
+                if kind == "snapshot" and model["attempts"]:
+                    # judged against the program, not the model: an accepted snapshot has exactly the slots of the position it
+                    # was taken at, and each slot holds what the target had there on one of its visits to that position during
+                    # the accepted attempt
+                    acc = model["attempts"][-1]["states"]
+                    got = [int(x) for x in obs[obs.index("[") + 1:-1].split(",") if x.strip()]
+                    want_len = {len(st) for _, st in acc}
+                    if len(got) not in want_len:
+                        self._probs.append(f"schedule {r['schedule']}: the accepted snapshot has {len(got)} stack slots {r.get('stack')}; the "
+                                           f"target had {sorted(want_len)} at the position it was taken at")
+                    elif any(all(i >= len(st) or st[i] != g for _, st in acc) for i, g in enumerate(got)):
+                        self._probs.append(f"schedule {r['schedule']}: the accepted snapshot {r.get('stack')} holds a slot value the target "
+                                           f"never had at that position during the attempt")
                 outs.append(obs)
                 case["_model"].append(model)
             if len(rs) != len(case["schedules"]):
